@@ -7,7 +7,7 @@ import tempfile
 from .. import common, gen
 from . import seqprop
 
-GEN = ['JsonUtilGen.v', 'Decisions.v', 'Order.v', 'CacheGen.v']
+GEN = ['JsonUtilGen.v', 'Decisions.v', 'Order.v', 'CacheGen.v', 'DriverGen.v']
 DECISIONS = ['Cache.read_immutable', 'FileBuilder.build_versioned', 'FileBuilder.clean']
 SITES = False
 ORDER = True
